@@ -321,6 +321,18 @@ class Check:
                 cur = None
         return [x if isinstance(x, str) else "\n".join(x) for x in res]
 
+    def coqchk(self, modules, timeout=3000):
+        """thorough tier: re-check compiled modules (e.g. ["OG.C14.Props"]) with the independent checker and record
+        the axioms it reports."""
+        with Lock(os.path.join(BUILD, "coq.lock")):
+            rc, out = sh(["coqchk", "-silent", "-o", "-Q", ".", "OG"] + list(modules), cwd=COQ, timeout=timeout)
+        m = re.search(r"\* Axioms:(.*?)\n\s*\n\* Constants", out, re.S)
+        axioms = " ".join(m.group(1).split()) if m else "(unparsed)"
+        self.cov["coqchk"] = {"rc": rc, "modules": list(modules), "axioms": axioms}
+        if rc != 0:
+            self.broken.append("coqchk failed on %s: %s" % (modules, out[-400:]))
+        return rc == 0
+
     def coq_audit(self, subdirs):
         hits = audit_coq(subdirs)
         if hits:
